@@ -36,6 +36,10 @@ func fullLex(s string) (toks []token.Token, l *memefish.Lexer, err error, pv any
 }
 
 // byteSpaces runs body over all S1 alphabets and the S2 lexeme space.
+// lexByteContexts: text before and after one arbitrary byte.
+var lexByteContexts = [][2]string{{"a ", " b"}, {"a", "b"}, {"1", "2"}, {"'", "'"}, {"\"", "\""}, {"`", "`"}, {"b'", "'"}, {"r'", "'"}, {", "}, {"'\\", "'"}, {"b'\\", "'"}, {"`\\", "`"},
+	{"/*", "*/"}, {"--", "\n"}, {"#", "\nb"}, {"a.", ""}, {"a. ", "b"}, {"@", ""}, {"@{", "}"}, {"0x", ""}, {"1e", "1"}, {".", "5"}, {"a ", ""}, {"", " a"}, {"'\\x4", "'"}, {"'\\u004", "'"}, {"'\\1", "1'"}}
+
 func byteSpaces(r *explore.Run, opt explore.Options, body func(c *explore.Ctx, s string)) {
 	for _, a := range spaces.S1 {
 		k := a.Quick
@@ -53,6 +57,31 @@ func byteSpaces(r *explore.Run, opt explore.Options, body func(c *explore.Ctx, s
 			body(c, s)
 		})
 	}
+	// S1b: every string of at most 2 arbitrary bytes, and every byte inside each lexical context
+	ob := opt
+	ob.Space = "S1b/all-bytes"
+	ob.MaxDev = -1
+	ob.SplitLen = 1
+	ob.Bound = fmt.Sprintf("every string of 0,1,2 arbitrary bytes (65793); every byte value in %d lexical contexts", len(lexByteContexts))
+	r.Explore(ob, func(c *explore.Ctx) {
+		k := c.ChooseFree(257 + len(lexByteContexts))
+		switch {
+		case k == 0:
+			body(c, "")
+		case k <= 256:
+			b1 := byte(k - 1)
+			k2 := c.ChooseFree(257)
+			if k2 == 0 {
+				body(c, string([]byte{b1}))
+			} else {
+				body(c, string([]byte{b1, byte(k2 - 1)}))
+			}
+		default:
+			ctx := lexByteContexts[k-257]
+			b := byte(c.ChooseFree(256))
+			body(c, ctx[0]+string([]byte{b})+ctx[1])
+		}
+	})
 	lexemeSpace(r, opt, body)
 	// S2b: every literal prefix x quote form x body (each escape kind, valid and invalid) x what follows
 	o := opt
